@@ -412,6 +412,8 @@ def sched_strategy(draw, cfg, role, horizon):
     post = max(cfg.get("post", 16), 2 * r) if cfg["kind"] == "top" else cfg.get("rfd", 16)
     thr = post + r
     nseg = draw(st.integers(0, 7))
+    if role == "cons" and nseg == 0 and draw(st.integers(0, 7)):
+        nseg = 1          # a consumer that never stalls keeps a bypass build in bypass mode: keep that class small
     segs = []
     for _ in range(nseg):
         kind = draw(st.sampled_from(["stall_long", "stall_thr", "burst", "burst_long", "duty", "duty_slow", "trickle"]))
